@@ -5,8 +5,9 @@ from vx.spec import *
 
 DATA = "src/model/data.rs"
 
-def leaf(ty_regex, mvspec, label, extra_read=None, props=("C18",)):
-    """the five trait methods of one `impl Message for <ty>` block + the ghost view"""
+def leaf(ty_regex, mvspec, label, extra_read=None, props=("C18",), more=None):
+    """the five trait methods of one `impl Message for <ty>` block + the ghost view;
+    `more` = {method: extra Fn keyword arguments (hints, pre, ...)}"""
     items = [Raw("    open spec fn mv(&self) -> MV { %s }\n" % mvspec, mod="data", name="mv_" + label, file=DATA, impl=ty_regex)]
     for name in ("write", "read", "length", "visit", "options"):
         kw = {}
@@ -20,6 +21,7 @@ def leaf(ty_regex, mvspec, label, extra_read=None, props=("C18",)):
             kw["sig_sub"] = [(r"fn read\(&mut self, reader: &mut dyn Read\)", "fn read<R: Read>(&mut self, reader: &mut R)")]
         if name == "read" and extra_read:
             kw["ensures"] = extra_read
+        kw.update((more or {}).get(name, {}))
         items.append(Fn(DATA, name, impl=ty_regex, mod="data", props=list(props), **kw))
     return items
 
@@ -33,11 +35,104 @@ U32_READ = [("C18", "decodes", "r is Ok ==> old(reader).rest().len() >= 4 && ((*
 VEC_READ = [("C18", "read-to-end", "r is Ok && old(self)@.len() == 0 ==> final(self)@ == old(reader).rest() && final(reader).rest().len() == 0")]
 OPT_READ = [("C18", "never-fails", "r is Ok")]
 
+# ---- proved facts about the wire encodings (also the facts other units rely on)
+CODEC_LEMMAS = Raw(r"""
+/// C18 core: read(write(v)) == v for both byte orders
+pub proof fn lemma_u16_roundtrip(v: u16, le: bool)
+    ensures dec16(enc16(v, le), le) == v, enc16(v, le).len() == 2
+{
+    assert(((((v >> 8) & 0xff) as u8) as u16) << 8 | (((v & 0xff) as u8) as u16) == v) by(bit_vector);
+    assert((((v & 0xff) as u8) as u16) | ((((v >> 8) & 0xff) as u8) as u16) << 8 == v) by(bit_vector);
+}
+pub proof fn lemma_u32_roundtrip(v: u32, le: bool)
+    ensures dec32(enc32(v, le), le) == v, enc32(v, le).len() == 4
+{
+    assert(((((v >> 24) & 0xff) as u8) as u32) << 24 | ((((v >> 16) & 0xff) as u8) as u32) << 16 | ((((v >> 8) & 0xff) as u8) as u32) << 8 | (((v & 0xff) as u8) as u32) == v) by(bit_vector);
+    assert((((v & 0xff) as u8) as u32) | ((((v >> 8) & 0xff) as u8) as u32) << 8 | ((((v >> 16) & 0xff) as u8) as u32) << 16 | ((((v >> 24) & 0xff) as u8) as u32) << 24 == v) by(bit_vector);
+}
+/// the other direction: write(read(bytes)) == the bytes consumed (what the trait's `ser(final) == rest.take(n)` clause needs)
+pub proof fn lemma_u16_bytes(s: Seq<u8>, le: bool)
+    requires s.len() >= 2
+    ensures enc16(dec16(s, le), le) == s.take(2)
+{
+    let (b0, b1) = (s[0], s[1]);
+    assert(((((b0 as u16) << 8 | (b1 as u16)) >> 8) & 0xff) as u8 == b0) by(bit_vector);
+    assert((((b0 as u16) << 8 | (b1 as u16)) & 0xff) as u8 == b1) by(bit_vector);
+    assert(((((b0 as u16) | (b1 as u16) << 8) >> 8) & 0xff) as u8 == b1) by(bit_vector);
+    assert((((b0 as u16) | (b1 as u16) << 8) & 0xff) as u8 == b0) by(bit_vector);
+    assert(enc16(dec16(s, le), le) =~= s.take(2));
+}
+pub proof fn lemma_u32_bytes(s: Seq<u8>, le: bool)
+    requires s.len() >= 4
+    ensures enc32(dec32(s, le), le) == s.take(4)
+{
+    let (b0, b1, b2, b3) = (s[0], s[1], s[2], s[3]);
+    assert({ let v = (b0 as u32) << 24 | (b1 as u32) << 16 | (b2 as u32) << 8 | (b3 as u32);
+        ((v >> 24) & 0xff) as u8 == b0 && ((v >> 16) & 0xff) as u8 == b1 && ((v >> 8) & 0xff) as u8 == b2 && (v & 0xff) as u8 == b3 }) by(bit_vector);
+    assert({ let v = (b0 as u32) | (b1 as u32) << 8 | (b2 as u32) << 16 | (b3 as u32) << 24;
+        ((v >> 24) & 0xff) as u8 == b3 && ((v >> 16) & 0xff) as u8 == b2 && ((v >> 8) & 0xff) as u8 == b1 && (v & 0xff) as u8 == b0 }) by(bit_vector);
+    assert(enc32(dec32(s, le), le) =~= s.take(4));
+}
+""", mod="data", name="codec_lemmas")
+
+# ---- Check<T>: what the generic body needs to know about `T::clone` and `T::ne`
+# The real `impl PartialEq for Value<Type>` (compares inner() only, i.e. IGNORES the byte order) is extracted and verified
+# against this vstd-style specification:
+VALUE_EQ_SPEC = Raw(r"""
+impl<Type: Copy + PartialEq> vstd::std_specs::cmp::PartialEqSpecImpl for Value<Type> {
+    open spec fn obeys_eq_spec() -> bool { Type::obeys_eq_spec() }
+    open spec fn eq_spec(&self, other: &Self) -> bool { self.val().eq_spec(&other.val()) }
+}
+""", mod="data", name="value_eq_spec")
+
+PAYLOAD_SPEC = Raw(r"""
+/// T::clone returns a value with the same ghost view
+pub open spec fn clone_keeps_mv<T: Message + Clone + PartialEq>() -> bool {
+    forall|a: T, b: T| #[trigger] cloned(a, b) ==> b.mv() == a.mv()
+}
+/// `a == b` (hence `a != b`) has a specification, and on two values of the SAME SHAPE it holds only for equal ghost views
+/// (the same-shape premise is what makes this true for U16/U32, whose `==` ignores the byte order)
+pub open spec fn eq_decides_mv<T: Message + Clone + PartialEq>() -> bool {
+    &&& T::obeys_eq_spec()
+    &&& forall|a: T, b: T| #[trigger] a.eq_spec(&b) && same_shape(a.mv(), b.mv()) ==> a.mv() == b.mv()
+}
+// PROVED for the payload types that occur in /repo (`grep 'Check::new(' /repo/src`: u8, U16, U32, Vec<u8>):
+pub proof fn lemma_payload_u8() ensures clone_keeps_mv::<u8>(), eq_decides_mv::<u8>() {}
+pub proof fn lemma_payload_vec() ensures clone_keeps_mv::<Vec<u8>>(), eq_decides_mv::<Vec<u8>>() {
+    assert forall|a: Vec<u8>, b: Vec<u8>| #[trigger] a.eq_spec(&b) implies a@ == b@ by { }
+}
+pub proof fn lemma_payload_u16() ensures eq_decides_mv::<U16>() {}
+pub proof fn lemma_payload_u32() ensures eq_decides_mv::<U32>() {}
+""", mod="data", name="payload_spec")
+
+PAYLOAD_TRUST = "Clone/PartialEq of the payload type T of Check<T> are structural: T::clone preserves mv(); T::eq has a spec (obeys_eq_spec) " \
+    "and, on two values of the same shape, a == b only if a.mv() == b.mv(). Stated for generic T because the body of Check<T>::read is generic; " \
+    "PROVED in this unit for every instantiation occurring in /repo (u8, Vec<u8>: both parts; U16, U32: the eq part, against the real " \
+    "`impl PartialEq for Value`), so what remains assumed for /repo is only: the derived `Clone` of the Copy enum Value<u16>/Value<u32> returns *self " \
+    "(prelude/model.rs derives it with allow(autoderive_clone_without_spec), so Verus gives it no specification and none can be added from here)"
+PAYLOAD_AXIOM = Raw(r"""
+#[verifier::external_body]
+pub proof fn axiom_check_payload<T: Message + Clone + PartialEq>()
+    ensures clone_keeps_mv::<T>(), eq_decides_mv::<T>()
+{}
+""", mod="data", name="payload_axiom", trusted=PAYLOAD_TRUST)
+
+U16_MORE = {"read": dict(hints=[(r"Ok\(\(\)\)", 1, "proof { lemma_u16_bytes(old(reader).rest(), (*old(self)) is LE); }", "before")])}
+U32_MORE = {"read": dict(hints=[(r"Ok\(\(\)\)", 1, "proof { lemma_u32_bytes(old(reader).rest(), (*old(self)) is LE); }", "before")])}
+# the body binds a local named `old`, which shadows Verus' old(..): the pre-state is captured in a ghost first
+CHECK_MORE = {"read": dict(
+    pre="let ghost v0 = self.value;",
+    hints=[(r"let old = self\.value\.clone\(\);", 1, "proof { axiom_check_payload::<T>(); assert(cloned(v0, old)); }")])}
+
 UNIT = Unit("engine", ["base.rs", "model.rs"],
-    leaf(r"Message for u8$", "MV::U8(*self)", "u8", U8_READ)
-    + leaf(r"Message for U16$", "match *self { Value::BE(v) => MV::U16(v, false), Value::LE(v) => MV::U16(v, true) }", "U16", U16_READ)
-    + leaf(r"Message for U32$", "match *self { Value::BE(v) => MV::U32(v, false), Value::LE(v) => MV::U32(v, true) }", "U32", U32_READ)
+    [CODEC_LEMMAS, VALUE_EQ_SPEC,
+     Fn(DATA, "eq", impl=r"PartialEq for Value<Type>$", mod="data", props=["C18"]),
+     PAYLOAD_SPEC, PAYLOAD_AXIOM]
+    + leaf(r"Message for u8$", "MV::U8(*self)", "u8", U8_READ)
+    + leaf(r"Message for U16$", "match *self { Value::BE(v) => MV::U16(v, false), Value::LE(v) => MV::U16(v, true) }", "U16", U16_READ, more=U16_MORE)
+    + leaf(r"Message for U32$", "match *self { Value::BE(v) => MV::U32(v, false), Value::LE(v) => MV::U32(v, true) }", "U32", U32_READ, more=U32_MORE)
     + leaf(r"Message for Vec<u8>$", "MV::Bytes(self@)", "Vec", VEC_READ, props=("C18", "C14"))
-    + leaf(r"Message for Check<T>$", "MV::Check(Box::new(self.value.mv()))", "Check")
-    + leaf(r"Message for Option<T>$", "MV::Opt(match *self { Some(v) => Some(Box::new(v.mv())), None => None })", "Option", OPT_READ)
+    + leaf(r"Message for Check<T>$", "MV::Check(Box::new(self.value.mv()))", "Check", more=CHECK_MORE)
+    + leaf(r"Message for Option<T>$", "MV::Opt(match *self { Some(v) => Some(Box::new(v.mv())), None => None })", "Option", OPT_READ),
+    uses={"data": ["use vstd::std_specs::cmp::PartialEqSpec;"]}
 )
